@@ -271,49 +271,61 @@ Definition final_checks (c : dcase) (s : st) (rets : list (N * N * outcome)) : l
 Definition is_terminal (s : st) : bool :=
   match coll s, rng s with CRet, RClosed => true | _, _ => false end.
 
+(* observation-only oracles *)
+Definition oracle_of (c : dcase) : list kind :=
+  (if d_event0_ok c then [] else [KEvent0]) ++
+  (if returned_seen (d_trace c) then [] else [KHang]) ++
+  (if d_quiet c && negb (all_exited (d_trace c) && (closed_seen (d_trace c) || match model_roots c with None => true | _ => false end))
+   then [KLeak] else []) ++
+  (if d_leak c then [KLeak] else []).
+
+(* no graph: Send must return an error, an empty Status, and invoke nothing *)
+Definition nograph_of (c : dcase) : list kind :=
+  if d_err c && eq_obs (d_status c) ([], [], []) && match d_nodecalls c with [] => true | _ => false end
+     && match d_trace c with [EvReturned] | [] => true | _ => false end
+     && match d_snapshot c with None => true | Some _ => false end
+  then [] else [KNoGraph].
+
+Definition reg_of (c : dcase) (roots : list root) : list kind :=
+  match d_snapshot c with
+  | Some sn => if eq_list root_eqb roots sn then [] else [KRegistry]
+  | None => [KRegistry]
+  end.
+
+Definition entries_of (c : dcase) : nat := length (fst (fst (d_status c))) + length (snd (d_status c)).
+Definition cancelled_of (c : dcase) : bool :=
+  d_pre c || has_ev (fun e => match e with EvCancel => true | _ => false end) (d_trace c).
+Definition invented_of (c : dcase) (roots : list root) : list kind :=
+  if Nat.ltb (length roots) (entries_of c) ||
+     (negb (cancelled_of c) && returned_seen (d_trace c) && negb (Nat.eqb (entries_of c) (length roots)))
+  then [KInvented] else [].
+
+(* observation only: the returned error against the thresholds the history set and the returned Status itself
+   (evaluated when the trace has diverged from the model, e.g. a Send that never entered the dispatch protocol) *)
+Definition errobs_of (c : dcase) : list kind :=
+  if returned_seen (d_trace c) &&
+     negb (Bool.eqb (d_err c) (Z.ltb (Z.of_nat (length (fst (fst (d_status c))))) (fst (model_thr c)) ||
+                               Z.ltb (Z.of_nat (length (snd (fst (d_status c))))) (snd (model_thr c))))
+  then [KErr] else [].
+
+Definition proto_end_of (c : dcase) (s : st) : list kind :=
+  if d_quiet c && returned_seen (d_trace c) && negb (is_terminal s) then [KProto] else [].
+
+Definition want_of (c : dcase) : option bool := if d_err c then Some (d_err_ctx c) else None.
+Definition a0_of (c : dcase) (roots : list root) : ast :=
+  {| a_st := init roots (d_pre c); a_recv := 0; a_pend := false; a_rets := [] |}.
+
 Definition run_case (c : dcase) : list (N * N * kind) :=
   let n := N.of_nat (length (d_trace c)) in
   let tagE := map (fun k => (n, end_kind, k)) in
-  let oracle :=
-    (if d_event0_ok c then [] else [KEvent0]) ++
-    (if returned_seen (d_trace c) then [] else [KHang]) ++
-    (if d_quiet c && negb (all_exited (d_trace c) && (closed_seen (d_trace c) || match model_roots c with None => true | _ => false end))
-     then [KLeak] else []) ++
-    (if d_leak c then [KLeak] else []) in
   match model_roots c with
-  | None =>
-      (* no graph: Send must return an error, an empty Status, and invoke nothing *)
-      tagE ((if d_err c && eq_obs (d_status c) ([], [], []) && match d_nodecalls c with [] => true | _ => false end
-                && match d_trace c with [EvReturned] | [] => true | _ => false end
-                && match d_snapshot c with None => true | Some _ => false end
-             then [] else [KNoGraph]) ++ oracle)
+  | None => tagE (nograph_of c ++ oracle_of c)
   | Some roots =>
-      let reg := match d_snapshot c with
-                 | Some sn => if eq_list root_eqb roots sn then [] else [KRegistry]
-                 | None => [KRegistry]
-                 end in
-      let entries := length (fst (fst (d_status c))) + length (snd (d_status c)) in
-      let cancelled := d_pre c || has_ev (fun e => match e with EvCancel => true | _ => false end) (d_trace c) in
-      let invented :=
-        if Nat.ltb (length roots) entries || (negb cancelled && returned_seen (d_trace c) && negb (Nat.eqb entries (length roots)))
-        then [KInvented] else [] in
-      (* observation only: the returned error against the thresholds the history set and the returned Status itself
-         (evaluated when the trace has diverged from the model, e.g. a Send that never entered the dispatch protocol) *)
-      let thr := model_thr c in
-      let errobs :=
-        if returned_seen (d_trace c) &&
-           negb (Bool.eqb (d_err c) (Z.ltb (Z.of_nat (length (fst (fst (d_status c))))) (fst thr) ||
-                                     Z.ltb (Z.of_nat (length (snd (fst (d_status c))))) (snd thr)))
-        then [KErr] else [] in
-      let beh := beh_of (d_trace c) in
-      let want := if d_err c then Some (d_err_ctx c) else None in
-      let a0 := {| a_st := init roots (d_pre c); a_recv := 0; a_pend := false; a_rets := [] |} in
       (* the trace is replayed over the pipelines the registration history registered (registry model) *)
-      match run_trace beh (e0_of (d_trace c)) want a0 0%N (d_trace c) with
-      | (_, Some m) => m :: tagE (reg ++ invented ++ errobs ++ oracle)
+      match run_trace (beh_of (d_trace c)) (e0_of (d_trace c)) (want_of c) (a0_of c roots) 0%N (d_trace c) with
+      | (_, Some m) => m :: tagE (reg_of c roots ++ invented_of c roots ++ errobs_of c ++ oracle_of c)
       | (a, None) =>
-          tagE ((if d_quiet c && returned_seen (d_trace c) && negb (is_terminal (a_st a)) then [KProto] else []) ++
-                final_checks c (a_st a) (a_rets a) ++ reg ++ invented ++ oracle)
+          tagE (proto_end_of c (a_st a) ++ final_checks c (a_st a) (a_rets a) ++ reg_of c roots ++ invented_of c roots ++ oracle_of c)
       end
   end.
 
